@@ -76,6 +76,9 @@ pub uninterp spec fn str_bytes(s: Seq<char>) -> Seq<u8>;
 pub struct ExFromUtf8Error(std::string::FromUtf8Error);
 pub assume_specification[ String::from_utf8 ](v: Vec<u8>) -> (r: std::result::Result<String, std::string::FromUtf8Error>)
     ensures r is Ok <==> valid_utf8(v@), r is Ok ==> str_bytes(r->Ok_0@) == v@;
+// UTF-8 is injective: a string is determined by its bytes
+pub uninterp spec fn text_of(b: Seq<u8>) -> Seq<char>;
+pub broadcast axiom fn axiom_text_of(s: Seq<char>) ensures #[trigger] text_of(str_bytes(s)) == s;
 }
 use ls::*;
 pub mod rdl {
@@ -404,6 +407,116 @@ impl FromStr for Selection {
 }
 }
 
+
+// ---- --set: PreSet::from_str (src/pre_sets.rs): NAME=value, @NAME=macro
+pub mod preset_m {
+use vstd::prelude::*;
+use std::rc::Rc;
+use std::str::FromStr;
+use super::*;
+use std::result::Result;
+#[verifier::external_body] pub struct PreSetParserError { _p: () }
+impl PreSetParserError {
+    #[allow(non_snake_case)] #[verifier::external_body] pub fn NoEqualsError(t: String) -> Self { unimplemented!() }
+    #[allow(non_snake_case)] #[verifier::external_body] pub fn EmptyName(t: String) -> Self { unimplemented!() }
+    #[allow(non_snake_case)] #[verifier::external_body] pub fn EmptyValue(t: String) -> Self { unimplemented!() }
+}
+impl From<SelectionParseError> for PreSetParserError { #[verifier::external_body] fn from(e: SelectionParseError) -> Self { unimplemented!() } }
+impl Context {
+    pub uninterp spec fn empty_spec() -> Context;
+    #[verifier::external_body]
+    pub fn new_empty() -> (r: Context) ensures r == Context::empty_spec() { unimplemented!() }
+}
+//@@ item src/pre_sets.rs :: enum Value
+//@@ rewrite pub_struct
+//@@ enditem
+//@@ item src/pre_sets.rs :: struct PreSet
+//@@ rewrite pub_struct pub_fields
+//@@ enditem
+pub mod vps {
+use vstd::prelude::*;
+use super::super::ls::*;
+// the byte offset of the first `=` (0x3d) of the text
+pub open spec fn first_eq(b: Seq<u8>) -> Option<int>
+    decreases b.len()
+{
+    if b.len() == 0 { None } else if b[0] == 0x3du8 { Some(0int) } else { match first_eq(b.subrange(1, b.len() as int)) { Some(i) => Some(i + 1), None => None } }
+}
+pub uninterp spec fn trim_of(s: Seq<char>) -> Seq<char>;
+#[verifier::external_body]
+pub fn find_eq(s: &str) -> (r: Option<usize>)
+    ensures r is Some <==> first_eq(str_bytes(s@)) is Some, r is Some ==> r->0 as int == first_eq(str_bytes(s@))->0 && r->0 < str_bytes(s@).len(),
+{ unimplemented!() }
+#[verifier::external_body]
+pub fn before(s: &str, pos: usize) -> (r: String)
+    requires pos < str_bytes(s@).len(), str_bytes(s@)[pos as int] < 0x80u8,
+    ensures str_bytes(r@) == str_bytes(s@).subrange(0, pos as int),
+{ unimplemented!() }
+#[verifier::external_body]
+pub fn after(s: &str, pos: usize) -> (r: String)
+    requires pos < str_bytes(s@).len(), str_bytes(s@)[pos as int] < 0x80u8,
+    ensures str_bytes(r@) == str_bytes(s@).subrange(pos as int + 1, str_bytes(s@).len() as int),
+{ unimplemented!() }
+#[verifier::external_body]
+pub fn trim_str(s: &String) -> (r: &str) ensures r@ == trim_of(s@) { unimplemented!() }
+#[verifier::external_body]
+pub fn strip_at(s: &String) -> (r: Option<&str>)
+    ensures r is Some <==> (s@.len() > 0 && s@[0] == '@'), r is Some ==> r->0@ == s@.subrange(1, s@.len() as int),
+{ unimplemented!() }
+#[verifier::external_body]
+pub fn str_is_empty(s: &str) -> (r: bool) ensures r == (s@.len() == 0) { unimplemented!() }
+}
+pub proof fn lemma_first_eq(b: Seq<u8>)
+    ensures first_eq(b) matches Some(i) ==> 0 <= i < b.len() && b[i] == 0x3du8,
+    decreases b.len(),
+{
+    if b.len() > 0 && b[0] != 0x3du8 { lemma_first_eq(b.subrange(1, b.len() as int)); }
+}
+use vps::*;
+// the text after the first `=` is: one expression (read by the shared reader), then white space only
+pub open spec fn value_getter(vt: Seq<char>) -> Option<Rc<dyn Get>> {
+    let p = text_pending(vt);
+    match getter_at(p) {
+        Some(gn) => if ws_run(p.subrange(gn.1, p.len() as int)) == p.len() - gn.1 { Some(gn.0) } else { None },
+        None => None,
+    }
+}
+impl FromStr for PreSet {
+    type Err = PreSetParserError;
+//@@ fn expr.preset.from_str = src/pre_sets.rs :: impl FromStr for PreSet :: fn from_str
+//@@ safety C18 C12 C13 C05 C03
+//@@ ret r
+//@@ rewrite find_eq_or_err slice_before slice_after trim_str key_to_string map_err_io strip_at str_is_empty s_to_owned get_or_empty_value
+//@@ header
+        ensures
+            // NAME=value / @NAME=macro: the name is the TRIMMED text before the FIRST `=`; the rest is one expression of the shared
+            // grammar followed by nothing but white space; `@` marks a macro (kept unevaluated), anything else a variable whose
+            // value is the expression evaluated once, on the empty context; an empty name or an absent value is an error
+            r is Ok ==> ({
+                let b = str_bytes(s@);
+                first_eq(b) matches Some(pos)
+                && ({ let name = trim_of(text_of(b.subrange(0, pos))); let vt = text_of(b.subrange(pos + 1, b.len() as int));
+                      value_getter(vt) matches Some(g)
+                      && (if name.len() > 0 && name[0] == '@' {
+                              name.len() > 1 && r->Ok_0.key@ == name.subrange(1, name.len() as int) && r->Ok_0.value == Value::Macro(g)
+                          } else {
+                              name.len() > 0 && r->Ok_0.key@ == name && (r->Ok_0.value matches Value::Calculated(v) && g.get_spec(&Context::empty_spec()) == Some(v))
+                          }) })
+            }), // @obl EXPR.preset.text : C18 C12 C13 C03
+//@@ body-start
+        let ghost b = str_bytes(s@);
+        broadcast use ls::axiom_text_of;
+        proof { lemma_first_eq(b); }
+//@@ after "let mut reader = from_string(&value);"
+        let ghost vt = value@;
+        let ghost p = text_pending(vt);
+        proof { assert(reader.pending() =~= p); }
+//@@ after "let value = read_getter(&mut reader)?;"
+        let ghost gn = getter_at(p)->0;
+        proof { assert(reader.pending() =~= p.subrange(gn.1, p.len() as int)); }
+//@@ endfn
+}
+}
 
 // ---- FunctionDefinitions::create: the arity check (C18). The function pointer field is the opaque stand-in `Factory`.
 pub mod fdef {
